@@ -263,6 +263,14 @@ def r10_7(ctx):
     no_splitlines(ctx, mods, "a record loses its line end or is cut in two")
     ctx.ok("minimal-config composition/modules examined for str.splitlines()", "", nontrivial=False, modules=mods)
 
+def r10_8(ctx):
+    """R10.8 a user value never carries the default marker in the minimal file: the marker predicate decides `promptless` over all
+    definitions of the symbol (C02 R02.9b) - a marked user value is reloaded as a default and lost."""
+    from . import c02
+    from .common import delegate
+    delegate(ctx, c02.r02_9, lambda c: "prompt tests quantify over all definitions" in c)
+
+
 def rules():
-    return [("R10.7", r10_7, 1), ("R10.6", r10_6, 3), ("R10.1", r10_1, 4), ("R10.1b", r10_1b, 3), ("R10.2", r10_2, 4), ("R10.2b", r10_2b, 2), ("R10.3", r10_3, 2),
+    return [("R10.8", r10_8, 1), ("R10.7", r10_7, 1), ("R10.6", r10_6, 3), ("R10.1", r10_1, 4), ("R10.1b", r10_1b, 3), ("R10.2", r10_2, 4), ("R10.2b", r10_2b, 2), ("R10.3", r10_3, 2),
             ("R10.4", r10_4, 1), ("R10.5", r10_5, 5)]
